@@ -19,11 +19,12 @@ def catalogue_marshal_only():
 # flavour markers of gen/catalogue.py: another Rust type for the same D-Bus type (same tree, same tokens)
 BASE_FLAVOUR = {"D": "d", "S": "s", "O": "o", "G": "g", "H": "h"}
 ARRAY_FLAVOUR = "CRNB"
+VARIANT_FLAVOUR = "V"
 
 
 def flavours(name):
     """the flavour markers occurring in a catalogue name (for the input distribution)"""
-    return sorted(set(c for c in name if c in BASE_FLAVOUR or c in ARRAY_FLAVOUR))
+    return sorted(set(c for c in name if c in BASE_FLAVOUR or c in ARRAY_FLAVOUR or c in VARIANT_FLAVOUR))
 
 
 # ----------------------------------------------------------------------------- extended signatures
@@ -53,7 +54,7 @@ def _parse(s):
             p, rest = _parse(rest)
             parts.append(p)
         return ("r", parts), rest[1:]
-    if c == "v":
+    if c in "vV":
         if len(s) > 1 and s[1] == "[":
             inner, rest = _parse(s[2:])
             assert rest[0] == "]"
@@ -173,6 +174,8 @@ class ValGen:
             return gen_base(r, t[1], bad)
         if k == "a":
             n = r.choice(self.sizes)
+            if depth_of(t[1]) > 6:
+                n = min(n, 1)              # 32 nested arrays with up to 3 elements each would be 3^32 values
             if self.bad_at is not None and not self.made_bad and count_leaves(t[1], "sogh"):
                 n = max(n, 1)
             out = ["a", erased(t[1]), str(n)]
@@ -919,3 +922,34 @@ def corpus_lines(prop):
             if line and not line.startswith("#"):
                 out.append(line)
     return out
+
+
+# ----------------------------------------------------------------------------- Rust types whose signature the protocol forbids
+def sig_valid(t):
+    """whether the D-Bus signature of a type tree is one the protocol allows: at most 255 characters, at most 32 arrays and 32
+    structs nested along any path (dict entries count as their array)"""
+    def depth(t, arrays, structs):
+        k = t[0]
+        if k == "b" or (k == "v"):
+            return arrays <= 32 and structs <= 32
+        if k == "a":
+            return arrays + 1 <= 32 and depth(t[1], arrays + 1, structs)
+        if k == "e":
+            return arrays + 1 <= 32 and depth(t[2], arrays + 1, structs)
+        return structs + 1 <= 32 and all(depth(x, arrays, structs + 1) for x in t[1])
+    return len(erased(t)) <= 255 and depth(t, 0, 0)
+
+
+def forbidden_variant_content(t):
+    """a typed variant somewhere inside t holds a Rust type whose signature is not valid (the writers must refuse it, the dynamic
+    API cannot even name it)"""
+    k = t[0]
+    if k == "b":
+        return False
+    if k == "v":
+        return t[1] is not None and (not sig_valid(t[1]) or forbidden_variant_content(t[1]))
+    if k == "a":
+        return forbidden_variant_content(t[1])
+    if k == "e":
+        return forbidden_variant_content(t[2])
+    return any(forbidden_variant_content(x) for x in t[1])
